@@ -59,6 +59,7 @@ def workload(r, n=1, c=0, big=False):
     w = {"do": "app", "n": n, "c": c, "streams": streams,
          "read_max": r.choice([1, 13, 1 << 20]) if max(s["size"] for s in streams) <= 1200 else r.choice([997, 1 << 20]),
          "ordered": r.random() < 0.7}
+    w["maxsize"] = max(s["size"] for s in streams)
     if r.random() < 0.3:
         w["dgrams"] = r.choice([1, 3, 10])
         w["dgram_size"] = r.choice([0, 1, 100, 1000])
@@ -143,3 +144,68 @@ def lifecycle_random(r, idx):
         steps.append({"do": "reset_like", "to": 1, "c": 0, "token": "exact", "len": 60})
     steps.append({"do": "run", "us": 2 * idle * 1000 + 8000000})
     return {"cfg": cfg, "steps": steps, "tag": {"family": "lifecycle-random", "end": end, "idx": idx}}
+
+
+# ------------------------------------------------------------------------------------------------
+# C01
+
+FATE_MAP = {"ok": "ok", "x": "x", "dup": "dup:3000", "delay": "delay:40000"}
+
+
+def streamdata_script(r, idx, fate_vec=None):
+    cfg = base_cfg(r, server=tcfg_menu(r), client=tcfg_menu(r))
+    # transfers must be able to finish: generous idle timeout
+    cfg["server"]["idle_ms"] = 30000
+    cfg["client"]["idle_ms"] = 30000
+    cfg["server"].pop("keep_alive_ms", None)
+    cfg["client"].pop("keep_alive_ms", None)
+    if fate_vec is not None:
+        half = len(fate_vec) // 2
+        pre = r.choice([0, 0, 2, 4])  # let some handshake datagrams through first
+        cfg["fates_c2s"] = ["ok"] * pre + [FATE_MAP[f] for f in fate_vec[:half]]
+        cfg["fates_s2c"] = ["ok"] * pre + [FATE_MAP[f] for f in fate_vec[half:]]
+    else:
+        cfg["fates_c2s"] = fates(r, 20)
+        cfg["fates_s2c"] = fates(r, 20)
+        if r.random() < 0.5:
+            cfg["loss_pct"] = r.choice([2, 10, 25])
+            cfg["dup_pct"] = r.choice([0, 5, 15])
+        if r.random() < 0.4:
+            cfg["jitter_us"] = r.choice([2000, 30000])
+    if r.random() < 0.3:
+        cfg["max_datagrams"] = r.choice([1, 2, 3])
+    if r.random() < 0.2:
+        cfg["ce_mark"] = True
+    steps = [{"do": "connect", "n": 1}]
+    big = fate_vec is None and r.random() < 0.4
+    steps.append(workload(r, big=big))
+    if r.random() < 0.5:
+        steps.append({"do": "run_until", "what": "connected", "max_us": 20000000})
+        w = workload(r, n=0, c=0, big=big)
+        steps.append(w)
+    # the reader of a stream is the *other* side's application: tiny reads only for tiny streams
+    apps = [s for s in steps if s.get("do") == "app"]
+    if max(a["maxsize"] for a in apps) > 1200:
+        for a in apps:
+            if a["read_max"] < 900:
+                a["read_max"] = r.choice([997, 1 << 20])
+    # a few scripted disturbances while the transfer runs
+    for _ in range(r.choice([0, 0, 1, 2, 3])):
+        steps.append({"do": "run", "us": r.choice([1000, 8000, 21000, 60000])})
+        k = r.random()
+        if k < 0.35:
+            steps.append({"do": "op", "n": r.choice([0, 1]), "c": 0, "op": {"op": "key_update"}})
+        elif k < 0.5:
+            steps.append({"do": "set", "key": "link_mtu", "v": r.choice([1200, 1300, 1452, 1500])})
+        elif k < 0.65:
+            steps.append({"do": "op", "n": r.choice([0, 1]), "c": 0,
+                          "op": {"op": "stop", "id": r.choice([0, 2, 3]), "code": r.choice([1, 33])}})
+        elif k < 0.8:
+            steps.append({"do": "op", "n": r.choice([0, 1]), "c": 0,
+                          "op": {"op": "reset", "id": r.choice([0, 1, 2, 3]), "code": r.choice([2, 44])}})
+        else:
+            steps.append({"do": "op", "n": r.choice([0, 1]), "c": 0, "op": {"op": "set_receive_window", "v": r.choice([1000, 20000, 1000000])}})
+    steps.append({"do": "run_until", "what": "apps", "max_us": 60000000})
+    steps.append({"do": "run", "us": 300000})
+    return {"cfg": cfg, "steps": steps, "tag": {"family": "streamdata", "idx": idx,
+                                                 "fates": fate_vec is not None}}
